@@ -231,7 +231,7 @@ PROPERTIES["C02"] = {
     "assumptions": SRE_ASSUME + ["oracle function (fresh symbolic value/gradient per evaluation, functionally consistent); convex flag set for solvers that require it"],
     "bounds": {"dims": "1..2", "max_evals": "10..14", "path budget": "exploration of solvers with deep inner loops (asga*, fgm/dgm/pgm, osga) is truncated by the path/time budget; coverage counts are in the units list"},
     "outside": ["termination and budget overshoot beyond the explored depth", "monotonicity clause (value not larger than the start value): not asserted for oracle functions",
-                "gradient-sampling solvers (gs, ags, gs-lbfgs, ags-lbfgs): their inner QP solves on symbolic data exceed the solver budget - not covered; bundle solvers (rqb, fpba1, fpba2) are covered only with bundle::max_size = 2 (analytic multiplier update, unit C02_bundle, exploration truncated by the path/time budget)",
+                "gradient-sampling solvers (gs, ags, gs-lbfgs, ags-lbfgs): their inner QP solve on symbolic data exceeds the solver budget and is replaced by an arbitrary simplex point (unit C02_gs: every answer the interior-point solver could give; the random sample offsets are those of the fixed-seed generator, i.e. concrete); bundle solvers (rqb, fpba1, fpba2) are covered only with bundle::max_size = 2 (analytic multiplier update, unit C02_bundle, exploration truncated by the path/time budget)",
                 "penalty and augmented-Lagrangian solvers: see C05"],
     "units": [
         {"engine": "sre", "harness": "C01_solver", "sources": ["C01_solver.cpp"],
@@ -246,6 +246,14 @@ PROPERTIES["C02"] = {
                       "solver=fgm;d=1;conv=1", "solver=dgm;d=1;conv=1", "solver=pgm;d=1;conv=1"],
          "budget": {"quick": {"deadline_s": 45, "max_paths": 1500, "query_s": 3}, "thorough": {"deadline_s": 600, "max_paths": 100000, "query_s": 20}},
          "encoded": _SOLVER_ENC},
+        # gradient-sampling solvers: real outer loop, samplers, preconditioners and line-search; the inner QP is an arbitrary simplex point
+        {"engine": "sre", "harness": "C02_gs", "sources": ["C01_solver.cpp"], "flags": ["-DQP_ORACLE"],
+         "quick": ["solver=gs;d=1;conv=1;smooth=0", "solver=ags-lbfgs;d=1;conv=1;smooth=0"],
+         "thorough": ["solver=%s;d=%d;conv=1;smooth=0%s" % (sv, d, x) for sv in ("gs", "ags", "gs-lbfgs", "ags-lbfgs") for (d, x) in ((1, ""), (2, ""), (1, ";qpfail=1"), (1, ";evals=16"))],
+         "budget": {"quick": {"deadline_s": 30, "max_paths": 1500, "query_s": 3}, "thorough": {"deadline_s": 300, "max_paths": 100000, "query_s": 20}},
+         "encoded": _SOLVER_ENC + ["nano::base_solver_gs_t<fixed / adaptive sampler, identity / lbfgs preconditioner>::do_minimize", "nano::gsample::{fixed_sampler_t, adaptive_sampler_t}::{sample, descent}",
+                                   "nano::gsample::{identity, lbfgs}_preconditioner_t::update", "nano::gsample::lsearch_t::step", "nano::gsample::perturbation_t::generate", "nano::sample_from_ball (fixed-seed generator: concrete offsets)",
+                                   "program::solver_t::solve(quadratic) replaced by an arbitrary point of the simplex (link time)"]},
         {"engine": "sre", "harness": "C02_bundle", "sources": ["C01_solver.cpp"],
          "quick": ["solver=rqb;d=1;conv=1;smooth=0;bsize=2", "solver=fpba1;d=1;conv=1;smooth=0;bsize=2"],
          "thorough": ["solver=%s;d=1;conv=1;smooth=0;bsize=2" % sv for sv in ("rqb", "fpba1", "fpba2")] + ["solver=rqb;d=2;conv=1;smooth=0;bsize=2", "solver=fpba2;d=1;conv=1;smooth=0;bsize=2;evals=14"],
